@@ -49,3 +49,18 @@ func (c *Client) VerifRateState() (writeDelay, sinceLastWrite time.Duration, ok 
 
 // VerifTxLen returns the number of events queued for the send loop.
 func (c *Client) VerifTxLen() int { return len(c.tx) }
+
+// VerifSetWriteDelay sets the accumulated delay of the live connection (to start a
+// scenario from "the burst allowance is used up" without sending the burst). Returns
+// false when the client is not connected.
+func (c *Client) VerifSetWriteDelay(d time.Duration) bool {
+	c.mu.RLock()
+	defer c.mu.RUnlock()
+	if c.conn == nil {
+		return false
+	}
+	c.conn.mu.Lock()
+	c.conn.writeDelay = d
+	c.conn.mu.Unlock()
+	return true
+}
